@@ -73,7 +73,22 @@ Lemma firstn_all_N (b : bytes) : firstn (N.to_nat (blen b)) b = b.
 Proof. unfold blen. rewrite Nat2N.id. apply firstn_all. Qed.
 
 (* ---------- the main theorem in terms of wf_core ---------- *)
-Theorem roundtrip_core o host port r : wf_core host port r = true -> roundtrip o host port r = true.
+Lemma firstn_app_N (b x : bytes) : firstn (N.to_nat (blen b)) (b ++ x) = b.
+Proof. unfold blen. rewrite Nat2N.id, firstn_app, Nat.sub_diag, firstn_all. cbn [firstn]. apply app_nil_r. Qed.
+
+Lemma skipn_app_N (b x : bytes) : skipn (N.to_nat (blen b)) (b ++ x) = x.
+Proof. unfold blen. rewrite Nat2N.id, skipn_app, Nat.sub_diag, skipn_all. reflexivity. Qed.
+
+(* the built request in front of any further bytes [x] of the connection: it is parsed back, and
+   exactly [x] is left for the next request *)
+Definition parsed_of (host : ustr) (port : N) (r : request) : parsed :=
+  {| p_method := q_method r; p_v10 := false; p_path := unquote (quote_path (q_path r));
+     p_query := enc_pairs (q_qargs r); p_headers := titled (all_headers host port r);
+     p_length := Some (blen (body_bytes r)); p_body := body_bytes r |}.
+
+Theorem parse_build_rest o host port r x : wf_core host port r = true ->
+  parse_request_rest o (build host port r ++ x) = Ok (parsed_of host port r, x)
+  /\ recovered r (parsed_of host port r) = true.
 Proof.
   unfold wf_core. intros H.
   repeat (apply andb_true_iff in H; destruct H as [H ?]).
@@ -85,15 +100,15 @@ Proof.
   destruct TF as [[t' [Et Hs]] Hc [Hp63 Hq63]].
   set (allh := all_headers host port r) in *.
   set (body := body_bytes r) in *.
-  unfold roundtrip, parse_request. rewrite build_shape. fold allh. fold body.
-  rewrite line_lf_crlf by assumption.
+  unfold parse_request_rest. rewrite build_shape. fold allh. fold body.
+  rewrite <- !app_assoc. rewrite line_lf_crlf by assumption.
   rewrite Hrl. cbn [bind]. rewrite Hnth.
   assert (Hus : url_site o (target r) =
                 Ok ({| u_scheme := []; u_netloc := []; u_path := quote_path (q_path r);
                        u_query := enc_pairs (q_qargs r); u_fragment := [] |}, None)).
   { rewrite Et. rewrite url_site_target; [|exact Hs|rewrite <- Et; exact Hc]. rewrite <- Et, Hp63, Hq63. reflexivity. }
   rewrite Hus. cbn [bind].
-  rewrite (leader_all_fields allh [] _ body Hfields Hdist); [|cbn [List.length]; lia|].
+  rewrite (leader_all_fields allh [] _ (body ++ x) Hfields Hdist); [|cbn [List.length]; lia|].
   2:{ rewrite app_length. pose proof (flat_map_hline_length allh). lia. }
   cbn [bind app fst snd].
   (* not chunked *)
@@ -110,9 +125,13 @@ Proof.
       destruct (dec_str (blen body)) as [|c s] eqn:E; [congruence|].
       rewrite <- E. now apply content_length_dec_str.
     - destruct body; [reflexivity|discriminate]. }
-  rewrite Hlen. rewrite N.ltb_irrefl. rewrite firstn_all_N.
+  rewrite Hlen.
+  assert (Hge : (blen (body ++ x) <? blen body) = false).
+  { unfold blen. rewrite app_length. apply N.ltb_ge. lia. }
+  rewrite Hge, firstn_app_N, skipn_app_N.
+  split; [reflexivity|].
   (* what was recovered *)
-  unfold recovered. cbn [p_method p_path p_query p_headers p_body p_length build_environ
+  unfold recovered, parsed_of. fold allh. fold body. cbn [p_method p_path p_query p_headers p_body p_length build_environ
                          e_path_info e_query_string e_http fst snd u_path u_query].
   rewrite !ustr_eqb_refl.
   assert (Htext : text_ok (q_path r) = true).
@@ -143,6 +162,12 @@ Proof.
   destruct (q_body r) as [b|e|f] eqn:Eb; try reflexivity.
   destruct (ustr_eqb (q_method r) (str "GET")) eqn:Eg; [reflexivity|].
   unfold body, body_bytes. rewrite Eg, Eb. rewrite parse_qsl_enc_pairs by exact Hform. apply pairs_eqb_refl.
+Qed.
+
+Theorem roundtrip_core o host port r : wf_core host port r = true -> roundtrip o host port r = true.
+Proof.
+  intros H. destruct (parse_build_rest o host port r [] H) as [Hp Hr].
+  rewrite app_nil_r in Hp. unfold roundtrip, parse_request. rewrite Hp. exact Hr.
 Qed.
 
 (* ---------- from the user-level predicate wf_request to wf_core ---------- *)
@@ -326,3 +351,27 @@ Qed.
 Theorem roundtrip_general o host port r :
   wf_request r = true -> wf_endpoint host port = true -> roundtrip o host port r = true.
 Proof. intros H1 H2. apply roundtrip_core. now apply wf_request_core. Qed.
+
+(* ---------- several requests on one connection ---------- *)
+(* parsing the concatenation of built requests with one Requestant gives, request by request,
+   what parsing each alone gives (every request starts from a fresh header dict), and each is the
+   request that was built *)
+Theorem parse_many_builds o host port : forall rs x, wf_endpoint host port = true ->
+  forallb wf_request rs = true ->
+  parse_many o (List.length rs) (flat_map (build host port) rs ++ x)
+  = map (fun r => parse_request o (build host port r)) rs
+  /\ Forall (fun r => parse_request o (build host port r) = Ok (parsed_of host port r)
+                      /\ recovered r (parsed_of host port r) = true) rs.
+Proof.
+  induction rs as [|r rs IH]; intros x Hep H.
+  - split; [reflexivity|constructor].
+  - cbn [forallb] in H. apply andb_true_iff in H. destruct H as [Hr Hrs].
+    cbn [flat_map List.length parse_many map]. rewrite <- app_assoc.
+    pose proof (wf_request_core host port r Hr Hep) as Hc.
+    destruct (parse_build_rest o host port r (flat_map (build host port) rs ++ x) Hc) as [Hp Hrec].
+    destruct (parse_build_rest o host port r [] Hc) as [Hp0 _]. rewrite app_nil_r in Hp0.
+    assert (Hone : parse_request o (build host port r) = Ok (parsed_of host port r)).
+    { unfold parse_request. rewrite Hp0. reflexivity. }
+    rewrite Hp. destruct (IH x Hep Hrs) as [Hps Hall].
+    split; [now rewrite Hps, Hone|]. constructor; [split; assumption|exact Hall].
+Qed.
